@@ -208,7 +208,7 @@ func adapterForwardingRule(c *Ctx, rule string) {
 				}
 				// results flow to a return
 				flows := false
-				for _, b := range f.Blocks {
+				for _, b := range liveBlocks(f) {
 					if ret, ok := b.Instrs[len(b.Instrs)-1].(*ssa.Return); ok {
 						for i := range ret.Results {
 							if derivesFrom(returnValue(ret, i), call, 0) {
